@@ -455,6 +455,12 @@ def materialise(desc) -> Structure:
             continue
         s.add(name="O", resn=w.get("resn", "HOH"), chain=w.get("chain", "W"),
               seq=w.get("seq", 300), xyz=p, rec=w.get("rec", "HETATM"), group=("water",))  # fmt: skip
+        if w.get("h") in ("both", "H2"):
+            # a water that already carries hydrogens (both, or - incomplete - only the one named H2)
+            t_ = RES["WAT"]["atoms"]
+            for hn in (("H1", "H2") if w["h"] == "both" else ("H2",)):
+                s.add(name=hn, resn=w.get("resn", "HOH"), chain=w.get("chain", "W"), seq=w.get("seq", 300),
+                      xyz=p + (t_[hn] - t_["O"]), rec=w.get("rec", "HETATM"), group=("water",))  # fmt: skip
         heavy = np.vstack([heavy, np.round(p, 3)]) if len(heavy) else np.round(p, 3)[None]
     s.min_heavy_gap = min_nonbonded_gap(s)
     return s
